@@ -13,6 +13,7 @@ from semantiva.context_processors import ContextType
 from semantiva.data_io import PayloadSource
 from semantiva.data_processors import DataOperation, DataProbe  # noqa: F401
 from semantiva.examples.test_utils import (
+    FloatDataCollection,
     FloatDataType,
     FloatOperation,
     FloatProbe,
@@ -82,6 +83,40 @@ class VScaleProbe(FloatProbe):
     def _process_logic(self, data, factor: float = 1.0):
         CALL_LOG.append(("VScaleProbe", data.data, factor))
         return data.data * factor
+
+
+from semantiva.workflows.fitting_model import FittingModel as _FittingModel
+
+
+class VSumModel(_FittingModel):
+    """A 'fitting model' with exact arithmetic: fit(x, y) = sum(y) + len(x) (a number, so that the context values of the
+    models can hold it)."""
+
+    def __init__(self, offset: float = 0.0):
+        self.offset = offset
+
+    def fit(self, x_values, y_values):
+        CALL_LOG.append(("VSumModel", list(x_values), list(y_values)))
+        return float(sum(y_values)) + len(x_values) + self.offset
+
+    def __str__(self):
+        return f"VSumModel(offset={self.offset})"
+
+
+class VKwScale(FloatOperation):
+    """data * factor with a KEYWORD-ONLY defaulted parameter (the style of docs/source/creating_components.rst)."""
+
+    def _process_logic(self, data, *, factor: float = 2.0):
+        CALL_LOG.append(("VKwScale", data.data, factor))
+        return FloatDataType(data.data * factor)
+
+
+class VKwScaleReq(FloatOperation):
+    """data * factor with a keyword-only parameter that has no default."""
+
+    def _process_logic(self, data, *, factor: float):
+        CALL_LOG.append(("VKwScaleReq", data.data, factor))
+        return FloatDataType(data.data * factor)
 
 
 class VTouchOperation(FloatOperation):
@@ -256,6 +291,67 @@ class VUndocProbe(FloatProbe):
 class VUndocOperation(FloatOperation):
     def _process_logic(self, data, factor: float = 1.0):
         return FloatDataType(data.data * factor)
+
+
+class VLab:
+    """Data types NESTED in another class (their __qualname__ is 'VLab.Reading', their __name__ 'Reading') and the
+    components that use them."""
+
+    class Reading(FloatDataType):
+        """A float reading."""
+
+    class Readings(FloatDataCollection):
+        """A collection of readings."""
+
+
+class VNestedSource(DataSource):
+    """Source of a nested data type."""
+
+    @classmethod
+    def _get_data(cls, a: float = 2.0):
+        return VLab.Reading(float(a))
+
+    @classmethod
+    def output_data_type(cls):
+        return VLab.Reading
+
+
+class VNestedSink(DataSink[FloatDataType]):
+    """Sink of a nested data type."""
+
+    @classmethod
+    def _send_data(cls, data):
+        pass
+
+    @classmethod
+    def input_data_type(cls):
+        return VLab.Reading
+
+
+class VNestedProbe(DataProbe):
+    """Probe of a nested data type."""
+
+    @classmethod
+    def input_data_type(cls):
+        return VLab.Reading
+
+    def _process_logic(self, data, factor: float = 1.0):
+        return data.data * factor
+
+
+class VNestedOperation(DataOperation):
+    """Operation on a nested data type."""
+
+    @classmethod
+    def input_data_type(cls):
+        return VLab.Reading
+
+    @classmethod
+    def output_data_type(cls):
+        return VLab.Reading
+
+    def _process_logic(self, data, factor: float = 1.0):
+        return VLab.Reading(data.data * factor)
 
 
 class VCtxScaleWrite(FloatOperation):
